@@ -27,8 +27,11 @@ t_xq == <<46, 120, 63>>              \* .x?
 Sels == {t_id, t_a, t_aq, t_b, t_bq, t_l, t_l0, t_li, t_mi}
 
 sA == Str(<<97>>)  sAB == Str(<<97, 98>>)
-Lits == {Int_(0), Int_(1), Int_(2), Float2(2), sA, sAB, Bool(TRUE), Null}
-      \cup (IF Size = "thorough" THEN {NaN, Float2(3), List(<<Int_(1), Int_(2)>>)} ELSE {})
+\* boundary numbers: the harness maps |v| = 2*10^9 to +/-1.5e308 (floats) and +/-(2^53-1) (ints)
+FHuge == Float2(2000000000)  FNegHuge == Float2(-2000000000)
+IHuge == Int_(2000000000)    INegHuge == Int_(-2000000000)
+Lits == {Int_(0), Int_(1), Int_(2), Float2(2), sA, sAB, Bool(TRUE), Null, FHuge, FNegHuge}
+      \cup (IF Size = "thorough" THEN {NaN, Float2(3), List(<<Int_(1), Int_(2)>>), IHuge, INegHuge, PInf} ELSE {})
 Pats == {<<97, 42>>, <<42, 98>>, <<92, 42>>}            \* a*   *b   \*
 
 Cmp(op, sel, v) == [op |-> op, sel |-> sel, val |-> v]
@@ -49,7 +52,8 @@ Inner == {Cmp("==", t_id, Int_(1)), Cmp(">", t_id, Int_(0)), Cmp("==", t_xq, Int
           Like(t_id, <<97, 42>>)}
 Quants == {Quant(op, sel, s) : op \in {"all", "any"}, sel \in {t_l, t_lq, t_li, t_mi, t_a, t_id}, s \in Inner}
 
-Nested == {Not(s) : s \in Core \cup {Conn("and", <<Cmp("==", t_aq, Int_(1)), Cmp("==", t_b, Int_(2))>>),
+Nested == {Not(c) : c \in {x \in Conns : Len(x.ss) = 2}} \cup
+          {Not(s) : s \in Core \cup {Conn("and", <<Cmp("==", t_aq, Int_(1)), Cmp("==", t_b, Int_(2))>>),
                                      Conn("or", <<Cmp("==", t_a, Int_(1)), Cmp("==", t_bq, Int_(2))>>),
                                      Quant("all", t_l, Cmp(">", t_id, Int_(0))),
                                      Not(Cmp("==", t_a, Int_(1)))}}
@@ -64,7 +68,7 @@ Stmts == Leaves \cup Conns \cup Quants \cup Nested
 Absent == <<"absent">>
 Ent(key, v) == IF K(v) = "absent" THEN <<>> ELSE <<Entry(key, v)>>
 Datum(a, b, l, mm) == Map(Ent(<<97>>, a) \o Ent(<<98>>, b) \o Ent(<<108>>, l) \o Ent(<<109>>, mm))
-DA == {Absent, Int_(1), sA} \cup (IF Size = "thorough" THEN {Float2(2), NaN} ELSE {})
+DA == {Absent, Int_(1), sA, FNegHuge} \cup (IF Size = "thorough" THEN {Float2(2), NaN, FHuge, INegHuge} ELSE {})
 DB == {Absent, Int_(2), Int_(3)}
 DL == {Absent, List(<<>>), List(<<Int_(1), Int_(2)>>), List(<<Int_(2), sA>>), Int_(5)}
       \cup (IF Size = "thorough" THEN {List(<<Int_(1)>>), List(<<Map(<<Entry(<<120>>, Int_(1))>>), Map(<<>>), Int_(1)>>)} ELSE {})
